@@ -1237,7 +1237,10 @@ def translate(run: Run) -> dict:
         if not ok:
             new_tree.append(w)
     new_module = [w for w in info['module'] if w not in quads]
-    info['new'] = {'token': new_token, 'binds': new_binds, 'tree': new_tree, 'module': new_module}
+    new_focus = [w for w in info['focus'] if w[3] not in ('copy', 'finally', 'focus-generator', 'iterator') and w not in quads]
+    new_iter = [w for w in info['iterators'] if w[1] not in ('finally', 'no-focus-write')]
+    info['new'] = {'token': new_token, 'binds': new_binds, 'tree': new_tree, 'module': new_module,
+                   'focus': new_focus, 'iterators': new_iter}
     return info
 
 
@@ -1434,7 +1437,14 @@ def context_reuse_histories(run: Run) -> None:
              "lang('en')", "lang('de')", "lang('EN-us')", "lang('fr')", "lang('en', .)", "lang('en', ..)", "*[lang('en')]", "//*[lang('de')]/name()",
              "..", "name(..)", "../name()", "../..", "ancestor::*[1]/name()", "(ancestor-or-self::*)[1]/name()", "exists(..)",
              "boolean(ancestor::*)", "(following::*)[1]/name()", "(preceding::*)[1]/name()", "head(descendant::*)/name()",
-             "some $x in ancestor::* satisfies name($x) = 'a'", "(../*)[1] is ."] + \
+             "some $x in ancestor::* satisfies name($x) = 'a'", "(../*)[1] is .",
+             # steps / consumers that raise or stop in the middle of an axis of the caller's context, values that used to
+             # become the context item
+             "child::*[error()]", "* ! error()", "*/error()", "*/(1 idiv 0)", "descendant::*[. = 7][error()]", "*/..[error()]",
+             "*/@*[error()]", "zero-or-one(*)", "exactly-one(//b)", "ancestor::*/error()", "following::*[error()]",
+             "preceding-sibling::* ! error()", "@*[error()]", "* ! (if (name() = 'b') then error() else 1)", "2 * 3", "count(*) * 2",
+             "sum(//b[. castable as xs:integer]) * 1", "count(namespace::*)", "namespace::*[1] ! name()", "namespace-node()",
+             "*/namespace-node()[error()]", "concat(?, 'x')('a')", "text()/lang('en')", "node()[lang('en')]"] + \
             [e for e in CACHE_EXPRS if '$p:' not in e and 'Q{' not in e]
     parser = XPath31Parser(namespaces=dict(NS))
     tokens = {}
@@ -1602,7 +1612,7 @@ def search(run: Run):
     new = getattr(run, 'new_sites', None) or {}
     funcs = {fn.split('.')[-1] if '.' not in fn else fn for _, fn, _ in new.get('token', [])} | \
             {fn for _, fn, _ in new.get('binds', [])} | {fn for _, _, fn, _ in new.get('tree', [])} | \
-            {fn for _, _, fn, _ in new.get('module', [])}
+            {fn for _, _, fn, _ in new.get('module', [])} | {fn for _, fn, _, _ in new.get('focus', [])}
     funcs |= {f.split('.')[0] for f in funcs} | {f.split('.')[-1] for f in funcs}
     if funcs:
         found = site_histories(run, funcs)
@@ -1879,6 +1889,7 @@ def body(run: Run) -> int:
                                           'variables_bind_sites': len(info['binds']),
                                           'token_state_sites': len(info['token']),
                                           'module_class_state_sites': len(info['module']),
+                                          'focus_sites': len(info['focus']), 'context_iterators': len(info['iterators']),
                                           'unreviewed': {k: [list(x) for x in v] for k, v in info['new'].items() if v}}
     run.trusted_base.append('translator harness/c05_sites.py (syntactic, name-based ast scan of the package for write sites)')
     if getattr(run, 'replay', None):
